@@ -117,7 +117,7 @@ Definition d_set (x : dial) (p : dphase) (dn : option (option err)) : dial :=
   {| d_key := d_key x; d_owner := d_owner x; d_phase := p; d_done := dn |}.
 
 Definition init (idl : bool) : st :=
-  {| pc := fun _ => SIdle; ctxc := fun _ => false; okey := fun _ => (0, 0, 0, 0)%N;
+  {| pc := fun _ => SIdle; ctxc := fun _ => false; okey := fun _ => (0, 0, [], 0)%N;
      conns := fun _ => None; dialing := fun _ => None; dials := fun _ => None; cns := fun _ => None;
      next_c := 0; next_w := 0; idle := idl; seen := []; sse := fun _ => SseIdle |}.
 
